@@ -219,6 +219,9 @@ func (s *state) getParentBlock(name string) *parse.BlockNode {
 func (s *state) walk(node parse.Node) error {
 	verifExecStep(node)
 	switch node := node.(type) {
+	case nil:
+		// An absent branch, such as the "else" of the condition of a "for ... if".
+		return nil
 	case *parse.ModuleNode:
 		if p := node.Parent; p != nil {
 			tplName, err := s.evalExpr(p.Tpl)
